@@ -105,6 +105,20 @@ def padded_fields(prog, chk, W12):
     for f in sorted(prog.functions.values(), key=lambda x: (x.file or '', x.line)):
         if f.body is None or f.is_pattern or 'v1/engine_track_impl' not in (f.file or ''):
             continue
+        # the same string written with a printf-style format: every integer conversion carries the 02 width
+        for x in walk(f.body):
+            if x.get('kind') == 'StringLiteral' and ':' in (x.get('value') or '') and '%' in (x.get('value') or ''):
+                fmt = program.decode_string_literal(x.get('value'))
+                convs = re.findall(r'%([-+ 0#]*)(\d*)(?:l|ll|h|hh|j|z|t)?([diu])', fmt)
+                for flags, width, _c in convs:
+                    n += 1
+                    chk.analysed(f)
+                    inst = '%s: integer conversion in the MM:SS format %r' % (f.qualname.replace('djinterop::engine::', ''), fmt)
+                    if '0' in flags and width == '2':
+                        chk.ok(W12, inst + ' is %02', locstr(x))
+                    else:
+                        chk.violation(W12, '%s|unpadded number in MM:SS' % f.qualname.replace('djinterop::engine::', ''),
+                                      locstr(x), inst + ' is not zero-padded to two digits')
         streams = {d['id'] for d in walk(f.body) if d.get('kind') == 'VarDecl' and 'ostringstream' in (d.get('type') or '')}
         if not streams:
             continue
